@@ -30,7 +30,7 @@ REPO_SRC = os.environ.get('VERIF_REPO_SRC', '/repo/embedded-cli/src')
 
 # order matters only for readability; Verus resolves items crate-wide
 MODULES = ['codes', 'buffer', 'utf8', 'utils', 'input', 'token', 'arguments', 'command', 'help',
-           'autocomplete', 'tmpl_autocomplete', 'tmpl_group_autocomplete', 'tmpl_group_help', 'editor', 'history', 'writer', 'service', 'builder', 'cli']
+           'autocomplete', 'tmpl_autocomplete', 'tmpl_group_autocomplete', 'tmpl_group_help', 'tmpl_command_help', 'editor', 'history', 'writer', 'service', 'builder', 'cli']
 ALL_FEATURES = ('history', 'autocomplete', 'help')
 
 CLAUSE_KW = ('requires', 'ensures', 'decreases', 'invariant', 'invariant_except_break', 'recommends',
@@ -618,7 +618,7 @@ def build(features=ALL_FEATURES, modules=None, src_dir=None):
     if 'autocomplete' not in features:
         modules = [m for m in modules if not (m.startswith('tmpl_') and 'autocomplete' in m)]
     if 'help' not in features:
-        modules = [m for m in modules if m != 'tmpl_group_help']
+        modules = [m for m in modules if m not in ('tmpl_group_help', 'tmpl_command_help')]
     out = []
     linemap = []
 
